@@ -50,3 +50,12 @@ Example C08_examples :
   exited (mkDst true [mkWst (Returned false) []; mkWst (Returned false) []; mkWst (Returned false) []]) = Some 0 /\
   exited (mkDst true [mkWst (Returned true) []; mkWst (Running 0) []; mkWst (Returned false) []]) = None.
 Proof. vm_compute. repeat split; reflexivity. Qed.
+
+(* ---------- the cancellation idioms of the pipe ingester, read from the source a second time ----------
+   (see C13_ingest_setup_from_source: the set-up of Ingest as generated data; anything between the open
+   and the reader that is not one of the recognised statements makes the generated file ill-typed) *)
+From AM Require Import Model.IngestIR Gen.IngestProg Proofs.IngestIRTie.
+Theorem C08_ingest_setup_from_source :
+  open_is_cancellable (ip_setup gen_Ingest) = true /\ read_is_cancellable (ip_setup gen_Ingest) = true.
+Proof. pose proof setup_from_source as H. tauto. Qed.
+Print Assumptions C08_ingest_setup_from_source.
